@@ -233,18 +233,6 @@ seq_rt!(c12_t_seq_rcslice_2, Rc<[u16]>, 2, |b: Vec<u16>| Rc::from(b));
 seq_rt!(c12_t_seq_cowslice_2, std::borrow::Cow<'static, [u16]>, 2, |b: Vec<u16>| std::borrow::Cow::Owned(b));
 
 // VecDeque whose ring buffer is wrapped (head in the middle): history must not matter
-h!(c12_t_seq_vecdeque_wrapped, 14, {
-    let a: [u16; 3] = kani::any();
-    let mut v: VecDeque<u16> = VecDeque::with_capacity(4);
-    v.push_back(0); v.push_back(0); v.push_back(a[0]);
-    v.pop_front(); v.pop_front();
-    v.push_back(a[1]); v.push_back(a[2]);
-    let n = check(&v);
-    kani::cover!(n == 10, "all 3-byte");
-    kani::cover!(v.as_slices().1.len() > 0, "ring buffer is wrapped");
-    std::mem::forget(v);
-});
-
 // the same with one-byte elements (no varint loops): cheap enough for the quick tier
 h!(c12_q_seq_vecdeque_wrapped_u8, 8, {
     let a: [u8; 3] = kani::any();
@@ -406,26 +394,10 @@ h!(c12_q_derive_enum_skip_default, 12, {
 });
 
 // ------------------------------------------------------------------------------------------
-// nesting to depth 3
+// nesting to depth 3 (five further nests - Option<Vec<tuple>>, Vec<Vec>, Vec<enum>, Result<(String,u8),Option<String>>,
+// a three-value string/vec/enum stream - and the u16 wrapped VecDeque were tried and removed: unwinding bounds that
+// cover them make CBMC time out)
 
-h!(c12_t_nest_opt_vec_tuple, 14, {
-    let a: (u8, Result<i8, bool>) = kani::any();
-    let b: (u8, Result<i8, bool>) = kani::any();
-    let some: bool = kani::any();
-    let v: Option<Vec<(u8, Result<i8, bool>)>> = if some { Some(vec![a, b]) } else { None };
-    let n = check(&v);
-    kani::cover!(n == 8, "Some, both 1+1+1 bytes");
-    kani::cover!(n == 1, "None");
-    std::mem::forget(v);
-});
-h!(c12_t_nest_vec_vec, 14, {
-    let a: [u16; 2] = kani::any();
-    let b: [u16; 1] = kani::any();
-    let v: Vec<Vec<u16>> = vec![a.to_vec(), vec![], b.to_vec()];
-    let n = check(&v);
-    kani::cover!(n == 13, "all maximal");
-    std::mem::forget(v);
-});
 h!(c12_t_nest_box_opt_arc, 8, {
     let some: bool = kani::any();
     let x: i32 = kani::any();
@@ -434,20 +406,6 @@ h!(c12_t_nest_box_opt_arc, 8, {
     kani::cover!(n == 8, "Some maximal");
     std::mem::forget(v);
 });
-h!(c12_t_nest_enum_in_vec, 18, {
-    let v: Vec<En<u16>> = vec![any_en(), any_en()];
-    let _n = check(&v);
-    kani::cover!(matches!(v[0], En::F) && matches!(v[1], En::A), "F then A");
-    std::mem::forget(v);
-});
-hs!(c12_t_nest_string_in_result, 16, {
-    let ok: bool = kani::any();
-    let v: Result<(String, u8), Option<String>> = if ok { Ok((ascii_string::<2>(), kani::any())) } else { Err(Some(ascii_string::<1>())) };
-    let _n = check(&v);
-    kani::cover!(ok, "Ok"); kani::cover!(!ok, "Err");
-    std::mem::forget(v);
-});
-
 // ------------------------------------------------------------------------------------------
 // back to back: self-delimiting encodings
 
@@ -470,26 +428,6 @@ h!(c12_t_b2b_three, 12, {
     kani::cover!(bytes.len() == 5 + 10 + 4, "all maximal");
     kani::cover!(bytes.len() == 3, "all minimal");
 });
-hs!(c12_t_b2b_str_vec_enum, 18, {
-    use qbice_serialize::{Decoder, Encoder, Plugin, PostcardDecoder, PostcardEncoder};
-    let a = ascii_string::<2>();
-    let b: Vec<u16> = vec_u16::<2>();
-    let c = any_en();
-    let plugin = Plugin::new();
-    let mut e = PostcardEncoder::new(Vec::new());
-    let ok = e.encode(&a, &plugin).is_ok() && e.encode(&b, &plugin).is_ok() && e.encode(&c, &plugin).is_ok();
-    assert!(ok, "encode ok");
-    let bytes = e.into_inner();
-    let mut d = PostcardDecoder::new(&bytes[..]);
-    let a2: Option<String> = d.decode(&plugin).ok();
-    let b2: Option<Vec<u16>> = d.decode(&plugin).ok();
-    let c2: Option<En<u16>> = d.decode(&plugin).ok();
-    assert!(a2.as_ref() == Some(&a) && b2.as_ref() == Some(&b) && c2 == Some(c), "values read back in sequence");
-    assert!(d.into_inner().is_empty(), "all bytes consumed");
-    kani::cover!(matches!(c, En::C { .. }), "named variant last");
-    std::mem::forget((a, b, a2, b2));
-});
-
 // ------------------------------------------------------------------------------------------
 // deliberately wrong twins (must be refuted by the solver)
 
